@@ -26,6 +26,7 @@ def ensure():
         env['PYTHONHASHSEED'] = want
         env['PYTHONDONTWRITEBYTECODE'] = '1'
         env[GUARD] = '1'
+        env['VERIF_MAIN_PID'] = str(os.getpid())
         os.execve(sys.executable, [sys.executable] + sys.argv, env)
     sys.dont_write_bytecode = True
     repo = repo_dir()
